@@ -118,6 +118,14 @@ func VerifC14Banner() {
 		rt.Cover("C14.body-untouched")
 		rt.Assert(!(frameable && !framed), "C14.frameable-html-reply-gets-the-banner-frame")
 	}
+	if frameable && !framed {
+		// a later request for the same path with another query is framed around its own URL
+		r2 := &http.Request{Method: method, URL: &url.URL{Path: "/docs/page", RawQuery: "q=2"}, Host: "front.example.com", Header: hdr, Proto: "HTTP/1.1", ProtoMajor: 1, ProtoMinor: 1}
+		w2 := rt.NewRecorder()
+		h.ServeHTTP(w2, r2)
+		rt.Cover("C14.second-request")
+		rt.Assert(strings.Contains(string(w2.Body), "src=\"/docs/page?q=2\""), "C14.every-frame-embeds-its-own-requested-url")
+	}
 	if frameable {
 		rt.Assert(strings.HasPrefix(w.H.Get("Cache-Control"), "no-cache") && w.H.Get("Pragma") == "no-cache" && w.H.Get("X-Frame-Options") == "sameorigin", "C14.framed-html-is-uncacheable-and-sameorigin")
 		if framed {
